@@ -111,6 +111,8 @@ class OpsMixin:
         if isinstance(v, (FuncVal, BoundMethod, ClassRef, ExtRef, Builtin, ModuleRef, NativeFn)):
             return True
         if isinstance(v, UVal):
+            if v.cls and v.cls[:1].isupper() and not self.has_method(v, "__bool__") and not self.has_method(v, "__len__"):
+                return True         # an instance of a (Pytree) class without __bool__/__len__ is truthy
             f = self.ctx.fn("truthy", U, z3.BoolSort())
             return self.ctx.branch(f(v.t), tag + ":truthy")
         if isinstance(v, SReal):
